@@ -86,7 +86,8 @@ Ltac unfold_model :=
        c_xdev_frame k_cast_dev c_dev_cols c_ydev_series c_ydev_nan c_dev_idx
        ydev_checked c_ydev_series' c_ydev_nan' c_dev_idx_len c_dev_idx' c_ydev_classes k_ydev_given k_ydev_no_str
        c_y_given c_y_01 c_two_classes c_many_classes k_y_sortable c_y_no_str c_sort_by c_no_overlap
-       k_x_usable k_x_frame k_cols c_quant_numeric c_ordinal_known c_multiclass_inner_orders
+       k_x_usable k_x_frame k_cols c_quant_numeric c_ordinal_known c_ordinal_known_fit c_multiclass_inner_orders
+       gap_free mal_eqb ordinal_id_like
        x_is_frame x_is_none y_given y_is_series y_has_nan index_matches index_same_len columns_present
        dev_given xdev_is_frame ydev_is_series ydev_has_nan dev_index_matches dev_columns_present
        n_classes y_is_01 y_has_str y_all_str feature_overlap quant_has_str ordinal_unknown_value
@@ -111,11 +112,12 @@ Lemma reject_guarded :
   fitted o = fitted_at e ->
   exhibits c e m (fitted o) i = true ->
   crash_free (steps w Current c e) (fitted o) i = true ->
+  gap_free e m i = true ->
   fst (run_call (steps w Current c e) o i) = RAssert.
 Proof.
-  intros S w c e m o i Hg Hf Hex Hcf.
+  intros S w c e m o i Hg Hf Hex Hcf Hgf.
   destruct o as [f s]. cbn [fitted] in Hf, Hex, Hcf. subst f.
-  destruct i as [xf xn yg ys yn im il cp dg dxf dys dyn dim dcp n y01 yhs yas fo qs ou sb ho dyg dil dco dhs].
+  destruct i as [xf xn yg ys yn im il cp dg dxf dys dyn dim dcp n y01 yhs yas fo qs ou sb ho dyg dil dco dhs oid].
   destruct e.
   - (* init *)
     destruct c, m; cbv in Hg; try discriminate Hg; clear Hg;
@@ -266,11 +268,22 @@ Lemma crash_gaps_refuted :
           crash_gap_witnesses = true /\ length crash_gap_witnesses = 9.
 Proof. split; vm_compute; reflexivity. Qed.
 
+(* known finding O48: the value absent from the ranking of an id-like ordinal feature is accepted
+   by the first fit of every class that prepares its qualitative features with
+   QualitativeDiscretizer (the hypothesis gap_free of reject_guarded is necessary) *)
+Lemma id_like_gap_refuted :
+  forallb (fun c =>
+     let i := set_ordinal_unknown_id_like (valid_input c false true) in
+     guarded c EFit MOrdinalUnknown && exhibits c EFit MOrdinalUnknown false i &&
+     crash_free (csteps Current c EFit) false i && negb (gap_free EFit MOrdinalUnknown i) &&
+     result_eqb (fst (run_call (csteps Current c EFit) (mkObj false 0) i)) ROk) id_like_classes = true.
+Proof. vm_compute. reflexivity. Qed.
+
 (* the dev-target variants repaired by 9e3db28 are rejected with AssertionError *)
 Lemma dev_target_rejected :
   forallb (fun t => let '(c, e, m, i) := t in
              guarded c e m && exhibits c e m false i &&
-             crash_free (csteps Current c e) false i &&
+             crash_free (csteps Current c e) false i && gap_free e m i &&
              result_eqb (fst (run_call (csteps Current c e) (mkObj false 0) i)) RAssert)
           dev_target_witnesses = true.
 Proof. vm_compute. reflexivity. Qed.
